@@ -62,8 +62,9 @@ func checkResult(name string, res *graphql.Result, mustHaveNoData bool) string {
 	if _, err := json.Marshal(res); err != nil {
 		return fmt.Sprintf("%s: result is not serialisable to JSON: %v", name, err)
 	}
-	if res.Data == nil && len(res.Errors) == 0 {
-		return name + ": data is absent and there is no error"
+	// judged on what a client receives: a typed nil inside Data serialises to null as well
+	if js, _ := json.Marshal(res.Data); (res.Data == nil || string(js) == "null") && len(res.Errors) == 0 {
+		return name + ": data is absent (null) and there is no error"
 	}
 	if mustHaveNoData && res.Data != nil {
 		return fmt.Sprintf("%s: parsing or validation failed but data is present: %s", name, canonJSON(res.Data))
@@ -351,6 +352,8 @@ var structuredTrouble = []string{
 	`query A{a} query A{a}`, `query A{a} {a}`, `{a} {a}`, `fragment F on Q{a}`, `query Q{...Nope}`, `{nope}`, `{o}`, `{a{b}}`, `{o{nope}}`,
 	`query($a: ){a}`, `query($a: ]){a}`, `query($a:[Int}){a}`, `query($v:Nope){a}`, `query($v:O){a}`, `query($v:Int=1,$v:Int){int}`, `query($v:Int!=1){int}`,
 	`{n(x:{b:1})}`, `{n(x:{nope:1})}`, `{n(x:{b:"s",n:{b:"t",n:{b:"u"}}})}`, `{n(y:[1,null])}`, `{n(z:NOPE)}`, `{n(w:1)}`, `{req}`, `{req(r:null)}`, `{req(r:$undefined)}`,
+	`{ a @skip(if: true) b @include(if: false) }`, `{ a @skip(if: true) }`, `{ ... @skip(if: true) { a } ...F @include(if: false) } fragment F on Q { b }`,
+	`query($v: Boolean = true){ a @skip(if: $v) o @skip(if: $v) { a } }`, `mutation { set(x: 1) @skip(if: true) }`,
 	`{a @skip}`, `{a @skip(if:1)}`, `{a @nope}`, `{a @skip(if:true) @skip(if:false)}`, `query @skip(if:true){a}`, `{a @include(if:$v)}`, `query($v:Boolean){a @include(if:$v) @skip(if:$v)}`,
 	`type T{a:Int}`, `type T{a:Int} {a}`, `{a} type T{a:Int}`, `schema{query:Q} {a}`, `extend type Q{zz:Int} {zz}`, `directive @d on FIELD {a @d}`, `scalar X {a}`,
 	`mutation{set(x:1) a}`, `mutation{nope}`, `subscription{ev{a}}`, `subscription{a ev{a}}`, `subscription{...F} fragment F on S{ev{a} a}`, `subscription{nope}`, `subscription{__typename}`,
